@@ -39,6 +39,20 @@ CHECKS = {
              "dates of an obligation (same table day, no leap second). Outside: IERS table content, same-instant across a TDB "
              "conversion (needs a Lipschitz bound of the periodic term).",
         ref="DESIGN.md section 3 C03", technique=TECH + "; AST->QF_FP (cvc5) for eq/hash"),
+    "C04": dict(
+        text="2-safety by self-composition on the real Date class (running on the exact-real model of C03): one symbolic instant is "
+             "built twice, labelled X and Y, and each date consumer is executed on both; the observable -- the argument handed to "
+             "the physics, or for writers the instant decoded from the written text and the TIME_SYSTEM the message declares -- "
+             "must be identical for every instant and EOP record. Consumers: Sgp4.propagate (calendar tuple given to the sgp4 "
+             "library, via format tokens), Sgp4Beta.propagate (its tdiff statements taken from the AST), Tle.from_orbit (the "
+             "datetime its epoch fields are formatted from), Kepler/J2.propagate and ClohessyWiltshire._propagate (target date "
+             "and epoch relabelled), DatedInterp (query and table dates relabelled), iau1980.equinox (1997 switch), CCSDS OPM "
+             "(state + maneuver) and OEM (2-point ephemeris) writers in KVN and XML on real StateVector/Ephem/maneuver objects "
+             "with symbolic dates.",
+        note="Trusted: z3; the Date model of C03 (same-instant of change_scale is proved there); uninterpreted functions for "
+             "formatted fields. Bounded: one call per consumer, label pairs (TAI,TT),(UTC,TAI),(GPS,UT1) quick / all 20 pairs of "
+             "UT1,GPS,UTC,TAI,TT thorough. Outside: TDB labels; consumers not listed (listeners, Ephem.iter: C08/C10).",
+        ref="DESIGN.md section 3 C04", technique=TECH + "; self-composition (2-safety)"),
     "C05": dict(
         text="Kepler.propagate and J2.propagate are executed symbolically on a mean-element carrier with the real Infos: proved for "
              "all elements, mu and dt that a,e,i,Omega,omega are unchanged and M advances by sqrt(mu/|a|^3) dt (elliptic and "
